@@ -1917,7 +1917,7 @@ namespace gch
       GCH_NODISCARD
       static GCH_CPP17_CONSTEXPR
       Iterator
-      unchecked_next (Iterator pos, Integer n = 1) noexcept
+      unchecked_next (Iterator pos, Integer n = 1)
       {
         unchecked_advance (pos, static_cast<IteratorDiffT> (n));
         return pos;
@@ -1929,7 +1929,7 @@ namespace gch
       GCH_NODISCARD
       static GCH_CPP17_CONSTEXPR
       Iterator
-      unchecked_prev (Iterator pos, Integer n = 1) noexcept
+      unchecked_prev (Iterator pos, Integer n = 1)
       {
         unchecked_advance (pos, -static_cast<IteratorDiffT> (n));
         return pos;
@@ -1940,7 +1940,7 @@ namespace gch
                 typename Integer = IteratorDiffT>
       static GCH_CPP17_CONSTEXPR
       void
-      unchecked_advance (Iterator& pos, Integer n) noexcept
+      unchecked_advance (Iterator& pos, Integer n)
       {
         std::advance (pos, static_cast<IteratorDiffT> (n));
       }
